@@ -53,6 +53,11 @@ THEOREMS = [
     "PV.C01Excite.C01_excited_of_modal",
     "PV.C01Excite.C01_e2e_cov_excited",
     "PV.C01Excite.C01_e2e_dat_excited",
+    # ... and observability / invertibility too: every mode seen by a (reference) channel, distinct non-zero poles
+    "PV.C01Excite.C01_observable_of_modal",
+    "PV.C01Excite.C01_invertible_of_modal",
+    "PV.C01Excite.C01_e2e_cov_modal",
+    "PV.C01Excite.C01_e2e_dat_modal",
     "PV.C01E2E.Mode.conj",
     "PV.C01E2E.C01_pole_pair",
     "PV.C01E2E.Ex.recovered",
